@@ -114,6 +114,12 @@ def gen_case(rng, tier):
         else:
             # positive extent in birth and persistence across the collection
             coll[0].append([base + 1.5 * span, base + 1.5 * span + 2.2 * span])
+        if rng.random() < 0.25:
+            # two diagrams that differ in one coordinate only, by less than what a shortened printout shows
+            twin_ = [list(q) for q in rng.choice(coll)]
+            q_ = rng.choice(twin_)
+            q_[1] = q_[1] + max(abs(q_[1]), span) * rng.choice((1e-3, 1e-5))
+            coll.insert(rng.randrange(len(coll) + 1), twin_)
         idata.append(coll)
     ops = []
     for _ in range(rng.randint(2, 14 if tier == "quick" else 32)):
